@@ -4,7 +4,9 @@ Simulated dimension: seeded placement / move / move_to / remove histories over s
 injected rejected operations (out-of-bounds placement and move_to on every face, operations on agents
 that have left), against an exact arithmetic reference; containment is checked on every agent after
 every operation."""
+import copy
 import math
+import pickle
 
 from ECAgent.Core import Agent, ComponentNotFoundError, Model
 from ECAgent.Environments import PositionComponent
@@ -22,14 +24,14 @@ RULE = ("world kind in {SpaceWorld, DiscreteWorld, LineWorld, GridWorld}, extent
         "signs); integers in grid worlds, dyadic k/8 in continuous worlds; non-trivial = >=2 agents in a non-cubic world "
         "and >=1 move crossing an edge; distinct = (kind, extents class, wrap, sequence of op kinds with accept/reject "
         "and edge-crossing flags)"
-        "; also: worlds that are not model.environment, wrap_env reassigned in mid-history, coordinates left to their documented defaults, model lifecycle ops, integer moves of 2**31..2**64 in grid worlds repeated on one axis, agents carrying own components incl. a PositionComponent subclass, agents that are environments themselves, stretches of the history issued from inside a running timestep, placements / removals spelled addAgent / removeAgent, coordinates one ulp outside a continuous world")
+        "; also: worlds that are not model.environment, wrap_env reassigned in mid-history, coordinates left to their documented defaults, model lifecycle ops, integer moves of 2**31..2**64 in grid worlds repeated on one axis, agents carrying own components incl. a PositionComponent subclass, agents that are environments themselves, stretches of the history issued from inside a running timestep, placements / removals spelled addAgent / removeAgent, coordinates one ulp outside a continuous world, the history continued on a deepcopy / pickle round trip of model, world and agents")
 COMPONENTS = {"real": ["ECAgent.Environments.SpaceWorld.add_agent / remove_agent / move / move_to", "DiscreteWorld / LineWorld / "
                        "GridWorld constructors", "PositionComponent"],
               "stub": ["agents are plain ECAgent agents created by the harness"]}
 PROBES = ["multi_lap_wrap", "negative_wrap", "clamp_both_sides_one_move", "placement_on_hi", "zero_extent_axis",
           "reject.oob", "reject.move_to_oob", "reject.no_position", "move_to_accepted", "continuous_world", "grid_world", "model_lifecycle_op", "wrap_mode_switched", "defaults_used_for_omitted_coordinates", "huge_integer_move_in_grid",
           "agent_with_position_subclass_component", "agent_is_an_environment", "ops_from_inside_a_timestep", "deprecated_camelcase_spelling",
-          "one_ulp_outside_a_continuous_world"]
+          "one_ulp_outside_a_continuous_world", "history_continued_on_a_copy"]
 TECHNIQUE = "deterministic simulation: seeded placement/move histories with injected rejected operations vs an exact (dyadic) arithmetic reference, containment invariant after every op"
 LEVEL_TEXT = ("Seeded search over world configurations and move histories; after every operation every resident agent's "
               "coordinates must equal the exact reference (modular in wrapping worlds, saturating otherwise) and lie inside "
@@ -93,6 +95,9 @@ def generate(rng, tier):
         j_ = rng.randint(i_ + 1, len(ops))
         ops.insert(j_, {"op": "leave_step"})
         ops.insert(i_, {"op": "enter_step"})
+    if rng.random() < 0.15:
+        for _ in range(rng.randint(1, 2)):
+            ops.insert(rng.randint(0, len(ops)), {"op": "branch", "k": 0, "how": rng.choice(["deepcopy", "deepcopy", "pickle"])})
     for o_ in ops:
         if o_.get("op") in ("add", "move_to") and rng.random() < 0.05:
             o_["ulp"] = [rng.randrange(3), rng.choice(["hi", "hi", "lo"])]
@@ -270,6 +275,16 @@ def execute(sc, ctx):
                 ctx.check(snapshot() == before, "rejected-move_to-changed-state", f"move_to of a{k} to {rp}")
                 shape.append(["move_to", "rej"])
             ctx.event("move_to", k, p)
+        elif kind == "branch":
+            # checkpoint / restore: the history continues on a deep copy (or a pickle round trip) of model, world and agents
+            if ctx.in_step:
+                continue
+            if op.get("how") == "pickle":
+                m, env, agents = pickle.loads(pickle.dumps((m, env, agents)))
+            else:
+                m, env, agents = copy.deepcopy((m, env, agents))
+            ctx.fault("restart.continue_on_copy")
+            ctx.probe("history_continued_on_a_copy")
         elif kind == "flip_wrap":
             env.wrap_env = not env.wrap_env        # a public attribute (the package's own tests reassign it)
             ref.wrap = not ref.wrap
